@@ -57,6 +57,7 @@ func c14Build(p vfshared.Path, keys []string, values [][]byte, companion bool) p
 	}, nil)
 	if companion {
 		c12AddCompanion(msg.ProtoReflect())
+		vfshared.DuplicateListBlobs(msg.ProtoReflect()) // lists of blobs carry two matching blobs
 	}
 	return msg
 }
